@@ -31,6 +31,7 @@ type inst struct {
 	Order   int    `json:"order"`   // 1 | 2
 	Mode    string `json:"mode"`    // generic | concrete
 	Storage string `json:"storage"` // dense | sparse (containers of the reductions)
+	Act     string `json:"act"`     // how a scalar is re-activated: setvariable | variables | resetset ("" = program has no re-activation)
 }
 
 func unitRoundoff(typ string) float64 {
@@ -58,6 +59,16 @@ func newReal(typ string, v float64) MagicScalar {
 var concreteOps = map[string]bool{
 	"Min": true, "Max": true, "Abs": true, "Neg": true, "Add": true, "Sub": true, "Mul": true, "Div": true,
 	"LogAdd": true, "LogSub": true, "Pow": true, "Sqrt": true, "Exp": true, "Log": true, "Log1p": true,
+	"Activate": true, // not a math method: re-activation is the same call in both method families
+}
+
+func hasActivate(h []step) bool {
+	for _, s := range h {
+		if s.Op == "Activate" {
+			return true
+		}
+	}
+	return false
 }
 
 var reductionOps = map[string]bool{
@@ -90,8 +101,15 @@ type machine struct {
 	magic   []MagicScalar // nil for non-magic registers
 	kinds   []string
 	scratch [3]Scalar
-	x       []float64 // actual values of the variables after activation
+	x       []float64 // actual values of the variables after activation; from exprlib.ZBase on: re-activated leaves
+	vars    []MagicScalar
+	stepNo  int // 1-based index of the call being executed (names the leaf of a re-activation)
+	actSame int // re-activations of a scalar that already stored n partial derivatives of the same order
+	actNew  int // ... of a scalar with a different shape (order 0, N = 0)
 }
+
+// maxCalls bounds the length of a program (room for the values of re-activated leaves)
+const maxCalls = 64
 
 func constValue(t *exprlib.Term) float64 {
 	env := exprlib.NewEnv(nil, 0, 1)
@@ -147,8 +165,13 @@ func newMachine(in inst, n int, desc []regDesc, point []float64) (*machine, erro
 	if err := Variables(in.Order, vars...); err != nil {
 		return nil, err
 	}
-	for _, v := range vars {
-		m.x = append(m.x, v.GetFloat64())
+	m.vars = vars
+	m.x = make([]float64, exprlib.ZBase+maxCalls)
+	if n > exprlib.ZBase {
+		return nil, fmt.Errorf("too many variables")
+	}
+	for i, v := range vars {
+		m.x[i] = v.GetFloat64()
 	}
 	for i := range m.scratch {
 		m.scratch[i] = newReal(in.Type, 0)
@@ -196,6 +219,9 @@ func (m *machine) exec(s step) error {
 	}
 	r := m.magic[s.R]
 	arg := func(i int) ConstScalar { return m.regs[s.A[i]] }
+	if s.Op == "Activate" {
+		return m.activate(s)
+	}
 	if m.in.Mode == "concrete" {
 		return m.execConcrete(s)
 	}
@@ -287,6 +313,47 @@ func (m *machine) exec(s step) error {
 	default:
 		return fmt.Errorf("operation %q is not bound to the library", s.Op)
 	}
+	return nil
+}
+
+// activate re-declares register s.R as variable s.P[0] (1-based) of n.
+func (m *machine) activate(s step) error {
+	if len(s.P) != 1 || int(s.P[0]) < 1 || int(s.P[0]) > m.n {
+		return fmt.Errorf("bad variable index in Activate")
+	}
+	if m.stepNo < 1 || m.stepNo > maxCalls {
+		return fmt.Errorf("program too long for re-activation (%d)", m.stepNo)
+	}
+	r := m.magic[s.R]
+	i := int(s.P[0]) - 1
+	val := r.GetFloat64()
+	same := r.GetN() == m.n && r.GetOrder() == m.in.Order
+	if same {
+		m.actSame++
+	} else {
+		m.actNew++
+	}
+	switch m.in.Act {
+	case "variables":
+		// Variables(order, x_1, .., r at position i, .., x_n)
+		list := append([]MagicScalar{}, m.vars...)
+		list[i] = r
+		if err := Variables(m.in.Order, list...); err != nil {
+			return err
+		}
+	case "resetset":
+		if same {
+			r.ResetDerivatives()
+			r.SetDerivative(i, 1)
+		} else if err := r.SetVariable(i, m.n, m.in.Order); err != nil { // no storage to reset yet
+			return err
+		}
+	default:
+		if err := r.SetVariable(i, m.n, m.in.Order); err != nil {
+			return err
+		}
+	}
+	m.x[exprlib.ZBase+m.stepNo-1] = val // the leaf keeps the value the scalar held
 	return nil
 }
 
@@ -460,6 +527,8 @@ type runResult struct {
 	Panic      string
 	PanicStep  int
 	InterOK    bool   // every slot of every intermediate result was finite
+	ActSame    int    // re-activations of a scalar holding a result of the same shape (n, order)
+	ActNew     int    // re-activations of a scalar of a different shape
 	FrameBreak string // non-empty: a register other than the receiver changed
 	Helper     string // non-empty: GetGradient/GetHessian/CopyGradient/CopyHessian disagree with the slots
 }
@@ -528,11 +597,13 @@ func run(in inst, n int, desc []regDesc, hist []step, point []float64) (res runR
 				}
 			}
 		}
+		m.stepNo = k + 1
 		msg := vh.Try(func() {
 			if err := m.exec(s); err != nil {
 				panic("harness: " + err.Error())
 			}
 		})
+		res.ActSame, res.ActNew = m.actSame, m.actNew
 		if msg != "" {
 			res.Panic, res.PanicStep = msg, k
 			return
